@@ -323,6 +323,64 @@ def damaged_cases(rng, w, out, full=True):
 
 
 # ---------------------------------------------------------------------------
+# histories: several texts through ONE caller-supplied scratch stream (D81)
+
+
+def gen_escaped_doc(rng, w):
+    """a valid document whose strings and keys contain escapes"""
+    def estr():
+        s = [gen_cchar(rng) for _ in range(rng.choice([1, 2, 3, 5]))]
+        s.insert(rng.randrange(len(s) + 1), rng.choice([("s", rng.choice(SHORT)), ("h", rng.randrange(0x20, 0xD7FF), rng.randrange(16)),
+                                                       ("p", rng.randrange(0x10000, 0x110000), rng.randrange(256))]))
+        return s
+    while True:
+        items = []
+        for _ in range(rng.choice([1, 2, 3])):
+            r = rng.random()
+            if r < 0.5:
+                items.append((gen_ws(rng), ("str", estr()), gen_ws(rng)))
+            elif r < 0.8:
+                items.append((gen_ws(rng), ("obj", gen_ws(rng), [(gen_ws(rng), estr(), gen_ws(rng), gen_ws(rng),
+                                                                 ("str", estr()) if rng.random() < 0.6 else gen_cval(rng, 1), gen_ws(rng))]), gen_ws(rng)))
+            else:
+                items.append((gen_ws(rng), gen_cval(rng, 1), gen_ws(rng)))
+        v = ("arr", gen_ws(rng), items)
+        out = Printed()
+        cprint(w, v, out)
+        if len(out.u) <= 200 and all(x <= CU_MAX[w] for x in out.u):
+            return out.u
+
+
+def gen_rejected(rng, w, doc):
+    """a text that fails, preferably in the middle of an escaped string or key"""
+    bs = [i for i, u in enumerate(doc) if u == 92]
+    r = rng.random()
+    if bs and r < 0.55:       # cut inside / right after an escape: \ | \u | \u12 | \uD83D | \uD83D\uDE
+        p = rng.choice(bs)
+        return doc[: min(len(doc) - 1, p + rng.choice([1, 2, 3, 4, 6, 7, 8, 10, 12]))]
+    if bs and r < 0.75:       # an escape letter that does not exist, after some decoded units
+        p = rng.choice(bs)
+        return doc[: p + 1] + [113] + doc[p + 2:]
+    if bs and r < 0.85:       # a raw line feed inside a string that already holds an escape
+        p = rng.choice(bs)
+        return doc[: p + 2] + [10] + doc[p + 2:]
+    if r < 0.95:
+        return doc[: rng.randrange(0, len(doc))]
+    return doc + [rng.choice(SUFFIX_ALPHABET) & CU_MAX[w]]
+
+
+def h_case(rng, w):
+    n = rng.choice([2, 3, 3, 4])
+    texts = []
+    for k in range(n):
+        d = gen_escaped_doc(rng, w)
+        if (k % 2 == 1 and rng.random() < 0.85) or (k % 2 == 0 and rng.random() < 0.15):
+            d = gen_rejected(rng, w, d)
+        texts.append(d)
+    return "H %d %s" % (w, "/".join(fmt_list(t) for t in texts))
+
+
+# ---------------------------------------------------------------------------
 # arbitrary texts (C05)
 
 SOUP = ["{", "}", "[", "]", ",", ":", "\"", "\\", "\"a\"", "\"\"", "true", "false", "null", "tru", "nul", "0", "1", "-",
